@@ -1012,8 +1012,41 @@ func ruleFetchContainers(r *Run) {
 			og.Fail(r.pos(gl.Pos()), "label %q is not set", k)
 		}
 	}
+	// the label map belongs to this container alone: every map the labels are written into is made
+	// in this call (a map handed in and reused could still hold another container's labels)
+	allInstrs(gl, func(in ssa.Instruction) {
+		mu, ok := in.(*ssa.MapUpdate)
+		if !ok {
+			return
+		}
+		for _, lv := range valueLeaves(mu.Map) {
+			lv = stripTypeOnly(lv)
+			if f, base, ok := loadOfField(lv); ok && f == "labels" {
+				// c.labels[...] on a local struct: resolve to what was stored into the field
+				if al, isAl := base.(*ssa.Alloc); isAl {
+					fresh := true
+					for k, st := range allocFieldStores(al) {
+						if k == "labels" {
+							for _, l2 := range valueLeaves(st) {
+								if _, isMake := stripTypeOnly(l2).(*ssa.MakeMap); !isMake {
+									fresh = false
+								}
+							}
+						}
+					}
+					if fresh {
+						continue
+					}
+				}
+			}
+			if _, isMake := lv.(*ssa.MakeMap); !isMake {
+				gbad = true
+				og.Fail(r.pos(mu.Pos()), "labels are written into %s, a map that is not made in this call: labels of another container can remain in it", describe(lv, 1))
+			}
+		}
+	})
 	if !gbad {
-		og.OK("%d fixed labels agree with their source fields", len(want)).At(r.pos(gl.Pos()))
+		og.OK("%d fixed labels agree with their source fields; the map is made per container", len(want)).At(r.pos(gl.Pos()))
 	}
 }
 
